@@ -838,6 +838,9 @@ var specLibFuncs = map[string]types.Type{
 	"strings.ToLower":       types.Typ[types.String],
 	"strings.LastIndex":     types.Typ[types.Int],
 	"time.Time.Before":      types.Typ[types.Bool],
+	"time.Time.Add":         types.Typ[types.Int64], // time.Time is modelled as an integer
+	"time.Unix":             types.Typ[types.Int64],
+	"time.Since":            types.Typ[types.Int64],
 	"time.Time.After":       types.Typ[types.Bool],
 }
 
